@@ -339,7 +339,7 @@ def normalize_url(
                 (
                     f
                     for d, f in PER_DOMAIN_QUERY_FILTERS
-                    if splitted.hostname.endswith(d)
+                    if splitted.hostname == d or splitted.hostname.endswith("." + d)
                 ),
                 None,
             )
